@@ -28,10 +28,17 @@
 //!       every file a command removed, captured at the moment of its removal — is scanned for the needles and for JSON
 //!       field names; key files must never contain the master key's secret strings; all four non-key file types must have
 //!       been seen.  -> `ok` | `oracle-fail:plaintext-in-<type>-after-<cmd>` | …
+//!       `hist` (command `copy`, and the end of every 2nd history) and every `scan` also COPY the snapshots into a fresh repository with
+//!       ANOTHER master key and (mostly) the source's chunker parameters — fixed-size chunker (odd `hist` seeds) or the same Rabin
+//!       polynomial —, then examine the destination with its own key: storage scan, every blob decodes with the destination's key and
+//!       not with the source's, every file reads back, `check --read-data` clean (`copy_and_verify`).
 //!  * `sites`               the `write_bytes` call sites of the CURRENT source (tools/c04_write_sites.py on <repo>/crates/core/src)
 //!       vs the model's table `Model/WriteSites.lean` (theorem `every_non_key_write_is_encrypted`) -> `ok <lines joined by ;>`
 //!  * `tamper <seed>`       oracle only: every stored non-key file × {bit flips at first/last/middle/random positions,
 //!       truncation, extension}: the affected read fails or returns the original content, never other content.
+//!  * `tamper front <seed>` oracle only: pack files extended at the FRONT (junk, copy of the first blob, equal-length distance, whole
+//!       pack) in a repository with equal-length blobs, then `check`, `to_indexed_checked`, `repair_index` and a file-by-file read:
+//!       every read fails or returns the original content (see `exec_tamper_front`).
 //!  * `swap index|pack|key <seed>` exchange the stored bytes of two files of that type, then read everything: every read fails or
 //!       returns what it returned before -> `ok`;  `swap packtwin <seed>`: two data packs with identical layout exchanged -> the read
 //!       returns the OTHER file's content (`oracle-fail:substitution-undetected`, known finding: blob ids are not verified on read)
@@ -250,6 +257,11 @@ pub fn generate(thorough: bool, rng: &mut Rng, ops: &mut Vec<String>, stats: &mu
     for _ in 0..(if thorough { 25 } else { 2 }) {
         ops.push(format!("c04 tamper {}", rng.below(1 << 40)));
         stats.hit("tamper");
+    }
+    // pack files extended at the FRONT (the header at the end stays intact), then the header re-read paths and a read of every file
+    for _ in 0..(if thorough { 40 } else { 4 }) {
+        ops.push(format!("c04 tamper front {}", rng.below(1 << 40)));
+        stats.hit("tamper.front");
     }
     ops.push(format!("c04 swap snapshot {}", rng.below(1 << 40)));
     // exchange two stored files of the same type, for every type: index / pack / key files (reads fail or are unchanged), and
@@ -702,7 +714,7 @@ fn build_repo(rng: &mut Rng, with_prune: bool) -> Result<(RepoHandle, Vec<Snapsh
 fn exec_scan(seed: u64) -> String {
     let mut rng = Rng::new(seed);
     let with_prune = rng.chance(1, 2);
-    let (h, _snaps) = match build_repo(&mut rng, with_prune) {
+    let (h, snaps) = match build_repo(&mut rng, with_prune) {
         Ok(x) => x,
         Err(e) => return e,
     };
@@ -793,6 +805,13 @@ fn exec_scan(seed: u64) -> String {
             return "oracle-fail:nonce-reused".into();
         }
     }
+    // … and the same holds for a COPY of the repository under another master key (destination with the source's chunker
+    // parameters): nothing readable in its storage, every blob under the destination's key, every file reads back, check clean
+    drop(repo);
+    let mut crng = Rng::new(seed ^ 0xc0b1);
+    if let Err(e) = copy_and_verify(&h, &snaps, true, &mut crng) {
+        return e;
+    }
     "ok".into()
 }
 
@@ -875,6 +894,11 @@ fn exec_hist(seed: u64) -> String {
     }
     cfg.set_datapack_size = Some(bytesize::ByteSize::kib(rng.range(4, 32)));
     cfg.set_treepack_size = Some(bytesize::ByteSize::kib(rng.range(1, 4)));
+    if seed % 2 == 1 {
+        // fixed-size chunker (equal-length chunks); even seeds: Rabin with the repository's own random polynomial
+        cfg.set_chunker = Some(rustic_core::repofile::Chunker::FixedSize);
+        cfg.set_chunk_size = Some(bytesize::ByteSize(256 << (seed / 2 % 5)));
+    }
     let be = MemBackend::new();
     // every file a command removes is kept for the scan
     let removed: Arc<std::sync::Mutex<Vec<(FileType, Bytes)>>> = Arc::new(std::sync::Mutex::new(Vec::new()));
@@ -936,7 +960,7 @@ fn exec_hist(seed: u64) -> String {
     let n_cmds = 4 + rng.below(5);
     let mut round = 0u64;
     for step in 0..n_cmds {
-        let cmd = if step == 0 || snaps.is_empty() { "backup" } else { *rng.pick(&["backup", "backup", "merge", "forget-prune", "prune-all", "repair-index", "config", "key"]) };
+        let cmd = if step == 0 || snaps.is_empty() { "backup" } else { *rng.pick(&["backup", "backup", "merge", "forget-prune", "prune-all", "repair-index", "config", "key", "copy"]) };
         let res: Result<(), String> = (|| {
             match cmd {
                 "backup" => {
@@ -986,6 +1010,11 @@ fn exec_hist(seed: u64) -> String {
                 "key" => {
                     _ = plant_key(&h, "pw-hist", &mut rng)?;
                 }
+                "copy" => {
+                    // all snapshots into a fresh repository with ANOTHER master key; 3 of 4 with the source's chunker parameters
+                    let same = rng.chance(3, 4);
+                    copy_and_verify(&h, &snaps, same, &mut rng)?;
+                }
                 _ => return Err("bad-op".into()),
             }
             Ok(())
@@ -1013,10 +1042,16 @@ fn exec_hist(seed: u64) -> String {
         }
     }
     // the history must leave a readable repository (otherwise "nothing readable in storage" would be vacuous)
-    match read_everything(&h, &snaps) {
-        Ok(_) => "ok".into(),
-        Err(e) => format!("oracle-fail:history-unreadable:{e}"),
+    if let Err(e) = read_everything(&h, &snaps) {
+        return format!("oracle-fail:history-unreadable:{e}");
     }
+    // … which can be copied into a repository with another master key and the same chunker parameters (every 2nd history)
+    if seed % 4 < 2 {
+        if let Err(e) = copy_and_verify(&h, &snaps, true, &mut rng) {
+            return format!("{e}-at-end");
+        }
+    }
+    "ok".into()
 }
 
 fn read_everything(h: &RepoHandle, snaps: &[SnapshotFile]) -> Result<Vec<Vec<repo::ReadBack>>, String> {
@@ -1028,6 +1063,117 @@ fn read_everything(h: &RepoHandle, snaps: &[SnapshotFile]) -> Result<Vec<Vec<rep
         out.push(repo::read_back(&repo, s).map_err(|e| errkind(&e))?);
     }
     Ok(out)
+}
+
+// ------------------------------------------------------------------ copy: another repository = another master key
+
+/// A copy destination for `h`: a NEW repository with its OWN fresh master key.  `same_chunker`: the destination's config is the
+/// source's config under a new repository id (same chunker kind, chunk sizes and — for Rabin — polynomial: the documented set-up of
+/// a copy target, so that deduplication works across the two repositories; `ConfigFile::has_same_chunker` is true), optionally
+/// with another compression setting; otherwise a default-initialised repository (own random polynomial).
+fn copy_destination(h: &RepoHandle, same_chunker: bool, rng: &mut Rng) -> Result<RepoHandle, String> {
+    if !same_chunker {
+        let mut cfg = ConfigOptions::default();
+        cfg.set_datapack_size = Some(bytesize::ByteSize::kib(rng.range(4, 32)));
+        cfg.set_treepack_size = Some(bytesize::ByteSize::kib(rng.range(1, 4)));
+        return RepoHandle::init_nocache(MemBackend::new(), None, &cfg).map(|x| x.0).map_err(|e| errkind(&e));
+    }
+    let mut config = h.open_nocache().map_err(|e| errkind(&e))?.config().clone();
+    config.id = Id::random().into();
+    if config.version >= 2 && rng.chance(1, 3) {
+        config.compression = Some(*rng.pick(&[0, 1, -3, 7]));
+    }
+    let hd = RepoHandle { be: MemBackend::new(), hot: None, key: rustic_core::repofile::MasterKey::new() };
+    let repo = Repository::new(&repo::nocache_opts(), &hd.backends()).map_err(|e| errkind(&e))?;
+    _ = repo.init_with_config(&Credentials::Masterkey(hd.key.clone()), &KeyOptions::default(), config).map_err(|e| errkind(&e))?;
+    Ok(hd)
+}
+
+/// `copy` of `snaps` from `h` into a fresh destination (see `copy_destination`), in two runs when there are several snapshots (the
+/// second run finds part of the blobs present), then the destination is examined with ITS OWN key only:
+///  * no stored non-key file of the destination shows a needle / JSON field name / secret string of either master key,
+///  * every blob the destination's index lists decrypts (and decodes) with the destination's key — and NOT with the source's key
+///    (theorem `stored_blob_decrypts_under_own_key`; what a raw transfer of ciphertext between repositories breaks),
+///  * every copied snapshot (found by its tree id) reads back — every file dumped — exactly as it reads in the source,
+///  * `check` and `check --read-data` of the destination are clean.
+fn copy_and_verify(h: &RepoHandle, snaps: &[SnapshotFile], same_chunker: bool, rng: &mut Rng) -> Result<(), String> {
+    if snaps.is_empty() {
+        return Ok(());
+    }
+    let want = read_everything(h, snaps).map_err(|e| format!("oracle-fail:copy-source-unreadable:{e}"))?;
+    let hd = copy_destination(h, same_chunker, rng)?;
+    if serde_json::to_string(&hd.key).ok() == serde_json::to_string(&h.key).ok() {
+        return Err("oracle-fail:copy-setup-same-master-key".into());
+    }
+    let run = |sel: &[SnapshotFile]| -> Result<(), String> {
+        let src = h.open_nocache().map_err(|e| errkind(&e))?.to_indexed().map_err(|e| errkind(&e))?;
+        let dst = hd.open_nocache().map_err(|e| errkind(&e))?.to_indexed_ids().map_err(|e| errkind(&e))?;
+        if same_chunker && !src.config().has_same_chunker(dst.config()) {
+            return Err("oracle-fail:copy-setup-chunker-differs".into());
+        }
+        src.copy(&dst, sel.iter()).map_err(|e| format!("{}@copy", errkind(&e)))
+    };
+    if snaps.len() >= 2 {
+        run(&snaps[..snaps.len() / 2])?;
+    }
+    run(snaps)?;
+    // (1) nothing readable in the destination's storage
+    let mut secrets = master_secrets(h);
+    secrets.extend(master_secrets(&hd));
+    for ((t, _id), bytes) in &hd.be.store() {
+        scan_one(repo::FILE_TYPES[*t as usize], bytes, &secrets).map_err(|e| format!("{e}-of-copy-destination"))?;
+    }
+    // (2) every blob stored in the destination is a message under the destination's key
+    {
+        let drepo = hd.open_nocache().map_err(|e| errkind(&e))?;
+        let srepo = h.open_nocache().map_err(|e| errkind(&e))?;
+        let (dbe, sbe) = (rustic_core::verif::repository::dbe(&drepo), rustic_core::verif::repository::dbe(&srepo));
+        let mut n = 0usize;
+        for id in hd.be.ids(FileType::Index) {
+            let f: IndexFile = dbe.get_file(&rustic_core::repofile::IndexId::from(id)).map_err(|e| errkind(&e))?;
+            for p in f.packs.iter().chain(f.packs_to_delete.iter()) {
+                let Some(bytes) = hd.be.get(FileType::Pack, &Id::from(*p.id)) else { return Err("oracle-fail:copy-dest-pack-missing".into()) };
+                for b in &p.blobs {
+                    let (o, l) = (b.location.offset as usize, b.location.length as usize);
+                    if o + l > bytes.len() {
+                        return Err("oracle-fail:copy-dest-blob-range".into());
+                    }
+                    n += 1;
+                    if dbe.read_encrypted_from_partial(&bytes[o..o + l], b.location.uncompressed_length).is_err() {
+                        return Err("oracle-fail:copy-dest-blob-not-under-dest-key".into());
+                    }
+                    if sbe.read_encrypted_from_partial(&bytes[o..o + l], b.location.uncompressed_length).is_ok() {
+                        return Err("oracle-fail:copy-dest-blob-opens-with-source-key".into());
+                    }
+                }
+            }
+        }
+        if n == 0 {
+            return Err("oracle-fail:copy-dest-holds-no-blob".into());
+        }
+    }
+    // (3) every file of every copied snapshot reads from the destination as it reads from the source
+    {
+        let drepo = hd.open_nocache().map_err(|e| errkind(&e))?;
+        let dsnaps = drepo.get_all_snapshots().map_err(|e| errkind(&e))?;
+        let drepo = drepo.to_indexed().map_err(|e| format!("oracle-fail:copy-dest-index:{}", errkind(&e)))?;
+        for (s, w) in snaps.iter().zip(&want) {
+            let Some(d) = dsnaps.iter().find(|d| d.tree == s.tree) else { return Err("oracle-fail:copy-dest-snapshot-missing".into()) };
+            match repo::read_back(&drepo, d) {
+                Err(e) => return Err(format!("oracle-fail:copy-dest-unreadable:{}", errkind(&e))),
+                Ok(got) if &got != w => return Err("oracle-fail:copy-dest-content-differs".into()),
+                Ok(_) => {}
+            }
+        }
+    }
+    // (4) the destination checks clean, file data included
+    if repo::check_errors_nocache(&hd, false) != Some(0) {
+        return Err("oracle-fail:copy-dest-check".into());
+    }
+    if repo::check_errors_nocache(&hd, true) != Some(0) {
+        return Err("oracle-fail:copy-dest-check-read-data".into());
+    }
+    Ok(())
 }
 
 fn exec_tamper(seed: u64) -> String {
@@ -1132,6 +1278,255 @@ fn exec_tamper(seed: u64) -> String {
         }
     }
     "ok".into()
+}
+
+// ------------------------------------------------------------------ tamper front: packs extended at the FRONT
+
+/// every snapshot of `snaps` read (ls + dump of every file) through an already indexed repository
+fn read_with<S: rustic_core::IndexedFull>(repo: &Repository<S>, snaps: &[SnapshotFile]) -> Result<Vec<Vec<repo::ReadBack>>, String> {
+    let ids: Vec<String> = snaps.iter().map(|s| s.id.to_hex().to_string()).collect();
+    let got = repo.get_snapshots(&ids).map_err(|e| errkind(&e))?;
+    let mut out = Vec::new();
+    for s in &got {
+        out.push(repo::read_back(repo, s).map_err(|e| errkind(&e))?);
+    }
+    Ok(out)
+}
+
+/// Every file of every snapshot dumped ONE BY ONE through an already indexed repository: a file (or tree) that cannot be read is
+/// skipped, a file that does read must have exactly its original content.  Returns the path of the first file that read
+/// successfully with OTHER content.  (`read_everything` gives up at the first failing blob — with a damaged pack that hides the
+/// files that still "read".)
+fn file_with_other_content<S: rustic_core::IndexedFull>(repo: &Repository<S>, snaps: &[SnapshotFile], original: &[Vec<repo::ReadBack>]) -> Option<String> {
+    use std::os::unix::ffi::OsStrExt;
+    for (snap, orig) in snaps.iter().zip(original) {
+        let want: std::collections::BTreeMap<&[u8], &Vec<u8>> =
+            orig.iter().filter_map(|e| e.content.as_ref().map(|c| (e.path.as_slice(), c))).collect();
+        let mut root = rustic_core::repofile::Node::new_node(std::ffi::OsStr::new(""), rustic_core::repofile::NodeType::Dir, rustic_core::repofile::Metadata::default());
+        root.subtree = Some(snap.tree);
+        let Ok(it) = repo.ls(&root, &rustic_core::LsOptions::default()) else { continue };
+        for item in it {
+            let Ok((path, node)) = item else { break };
+            if node.is_file() {
+                let mut buf = Vec::new();
+                if repo.dump(&node, &mut buf).is_ok() {
+                    let p = path.as_os_str().as_bytes();
+                    if want.get(p).is_none_or(|w| **w != buf) {
+                        return Some(String::from_utf8_lossy(p).to_string());
+                    }
+                }
+            }
+        }
+    }
+    None
+}
+
+/// `tamper front <seed>`: pack files EXTENDED AT THE FRONT.  The pack header sits at the END of the file and lists blob LENGTHS
+/// only (offsets are implied: back to back from 0), so a front-extended pack still ends in an intact, authenticated header — what
+/// ties that header to the file is the size comparison in `PackHeader::from_file` (model: `Pack.fromFile`, theorems
+/// `C08.from_file_ok_sizes` / `from_file_rejects_front_extended`).  Repository with EQUAL-LENGTH blobs in one data pack (equally
+/// sized incompressible files, or one file under the fixed-size chunker), so that a read at a wrong blob border still finds a
+/// complete valid message.  For every pack × prefix ∈ {one byte, random bytes, random bytes of the first blob's length, copy of
+/// the first blob, the first bytes up to the distance of two equal-length blobs, the whole pack (= pack duplicated)}:
+///  * direct read with the (stale) index: fails or returns the original content — compared for the prefixes that do not put
+///    another valid blob at a recorded offset (for the others a stale index pointing at a valid message of another blob is the
+///    known finding `swap packtwin`: blob ids are not verified on read);
+///  * `check` must report the pack;
+///  * `to_indexed_checked()` (re-reads the header because the size differs): must not return other content — nor accept the pack;
+///  * `repair_index` (default / `--read-all`) on a copy of the store, then every file is read: fails or returns the original
+///    content; the tampered pack must not be listed by the rebuilt index.
+fn exec_tamper_front(seed: u64) -> String {
+    let mut rng = Rng::new(seed);
+    let mut cfg = ConfigOptions::default();
+    match rng.below(3) {
+        0 => {}
+        1 => cfg.set_compression = Some(-3),
+        _ => cfg.set_compression = Some(0),
+    }
+    let fixed = rng.chance(1, 2);
+    let chunk = 256usize << rng.below(4);
+    if fixed {
+        cfg.set_chunker = Some(rustic_core::repofile::Chunker::FixedSize);
+        cfg.set_chunk_size = Some(bytesize::ByteSize(chunk as u64));
+    }
+    let (h, _r) = match RepoHandle::init_nocache(MemBackend::new(), None, &cfg) {
+        Ok(x) => x,
+        Err(e) => return errkind(&e),
+    };
+    let mut snaps = Vec::new();
+    for round in 0..(1 + rng.below(2)) {
+        let mut entries = Vec::new();
+        if fixed {
+            // one file of m whole chunks (m equal-length blobs) and a short one
+            let m = 3 + rng.below(6) as usize;
+            entries.push(SrcEntry::file(&[format!("big{round}").as_bytes()], &rng.bytes(m * chunk)));
+            let k = 1 + rng.below(100) as usize;
+            entries.push(SrcEntry::file(&[format!("small{round}").as_bytes()], &rng.bytes(k)));
+        } else {
+            // equally sized incompressible files: one blob each, equal stored length
+            let n = 200 + rng.below(3000) as usize;
+            for i in 0..(3 + rng.below(4)) {
+                entries.push(SrcEntry::file(&[format!("f{round}-{i}").as_bytes()], &rng.bytes(n)));
+            }
+            let k = 1 + rng.below(150) as usize;
+            entries.push(SrcEntry::file(&[format!("other{round}").as_bytes()], &rng.bytes(k)));
+        }
+        let snap = match snapshot_opts().to_snapshot() {
+            Ok(s) => s,
+            Err(e) => return errkind(&e),
+        };
+        match repo::backup_nocache(&h, &MemSource::new(entries), &BackupOptions::default(), snap) {
+            Ok(s) => snaps.push(s),
+            Err(e) => return errkind(&e),
+        }
+    }
+    let original = match read_everything(&h, &snaps) {
+        Ok(o) => o,
+        Err(e) => return format!("oracle-fail:untampered-read:{e}"),
+    };
+    // the packs and the lengths of their blobs in file order
+    let mut packs: Vec<(Id, Vec<usize>)> = Vec::new();
+    {
+        let repo = match h.open_nocache() {
+            Ok(r) => r,
+            Err(e) => return errkind(&e),
+        };
+        let dbe = rustic_core::verif::repository::dbe(&repo);
+        for id in h.be.ids(FileType::Index) {
+            match dbe.get_file::<IndexFile>(&rustic_core::repofile::IndexId::from(id)) {
+                Ok(f) => {
+                    for p in &f.packs {
+                        let mut b: Vec<(u32, u32)> = p.blobs.iter().map(|b| (b.location.offset, b.location.length)).collect();
+                        b.sort_unstable();
+                        packs.push((Id::from(*p.id), b.into_iter().map(|(_, l)| l as usize).collect()));
+                    }
+                }
+                Err(e) => return errkind(&e),
+            }
+        }
+    }
+    packs.sort();
+    // (offset of blob j, offset of blob i) for j < i of equal stored length
+    let equal_pairs = |l: &[usize]| -> Vec<(usize, usize)> {
+        let off: Vec<usize> = l.iter().scan(0usize, |a, x| { let o = *a; *a += x; Some(o) }).collect();
+        let mut v = Vec::new();
+        for i in 0..l.len() {
+            for j in 0..i {
+                if l[i] == l[j] {
+                    v.push((off[j], off[i]));
+                }
+            }
+        }
+        v
+    };
+    if !packs.iter().any(|(_, l)| !equal_pairs(l).is_empty()) {
+        if std::env::var("C04_DEBUG").is_ok() {
+            eprintln!("fixed={fixed} chunk={chunk} packs={:?}", packs.iter().map(|(_, l)| l.clone()).collect::<Vec<_>>());
+        }
+        return "oracle-fail:setup-no-pack-with-equal-length-blobs".into();
+    }
+    let listed = |hh: &RepoHandle, pack: &Id| -> Result<bool, String> {
+        let repo = hh.open_nocache().map_err(|e| errkind(&e))?;
+        let dbe = rustic_core::verif::repository::dbe(&repo);
+        for id in hh.be.ids(FileType::Index) {
+            let f: IndexFile = dbe.get_file(&rustic_core::repofile::IndexId::from(id)).map_err(|e| errkind(&e))?;
+            if f.packs.iter().chain(f.packs_to_delete.iter()).any(|p| Id::from(*p.id) == *pack) {
+                return Ok(true);
+            }
+        }
+        Ok(false)
+    };
+    let mut case = 0u64;
+    let mut failures: Vec<String> = Vec::new();
+    for (pid, lens) in &packs {
+        let bytes = h.be.get(FileType::Pack, pid).unwrap_or_default();
+        // (name, prefix, may a stale index find ANOTHER valid blob at a recorded offset?)
+        let k = 2 + rng.below(70) as usize;
+        let mut prefixes: Vec<(&str, Vec<u8>, bool)> = vec![("byte", vec![rng.next() as u8], false), ("junk", rng.bytes(k), false)];
+        if let Some(l0) = lens.first() {
+            prefixes.push(("junk-bloblen", rng.bytes(*l0), true));
+            prefixes.push(("blob1", bytes[..*l0].to_vec(), true));
+            // a prefix as long as the distance of two equal-length blobs j < i (the first bytes of the pack repeated: whole blobs when
+            // j = 0): with offsets counted from 0 again, blob i's recorded range holds blob j — a complete valid message
+            let pairs = equal_pairs(lens);
+            if !pairs.is_empty() {
+                let (oj, oi) = *rng.pick(&pairs);
+                prefixes.push(("pair", bytes[..oi - oj].to_vec(), true));
+            }
+        }
+        prefixes.push(("pack", bytes.to_vec(), false));
+        for (name, prefix, aligned) in prefixes {
+            case += 1;
+            let mut t = prefix.clone();
+            t.extend_from_slice(&bytes);
+            let t = Bytes::from(t);
+            h.be.put_raw(FileType::Pack, *pid, t.clone());
+            let res: Result<(), String> = (|| {
+                // direct read, stale index
+                if !aligned {
+                    if let Ok(got) = read_everything(&h, &snaps) {
+                        if got != original {
+                            return Err(format!("oracle-fail:front-extended-pack-changed-content:{name}"));
+                        }
+                    }
+                    if let Ok(repo) = h.open_nocache().and_then(|r| r.to_indexed()) {
+                        if file_with_other_content(&repo, &snaps, &original).is_some() {
+                            return Err(format!("oracle-fail:front-extended-pack-changed-content:{name}"));
+                        }
+                    }
+                }
+                // check reports it
+                if repo::check_errors_nocache(&h, false) == Some(0) {
+                    return Err(format!("oracle-fail:front-extended-pack-unnoticed-by-check:{name}"));
+                }
+                // header re-read when the index is loaded
+                if let Ok(repo) = h.open_nocache().map_err(|e| errkind(&e))?.to_indexed_checked() {
+                    if let Ok(got) = read_with(&repo, &snaps) {
+                        if got != original {
+                            return Err(format!("oracle-fail:front-extended-pack-changed-content-after-checked-index:{name}"));
+                        }
+                    }
+                    if file_with_other_content(&repo, &snaps, &original).is_some() {
+                        return Err(format!("oracle-fail:front-extended-pack-changed-content-after-checked-index:{name}"));
+                    }
+                    return Err(format!("oracle-fail:front-extended-pack-accepted-by-checked-index:{name}"));
+                }
+                // header re-read by `repair index`, on a copy of the store
+                let h2 = RepoHandle { be: MemBackend::from_store(h.be.store()), hot: None, key: h.key.clone() };
+                let read_all = case % 2 == 1;
+                h2.open_nocache()
+                    .and_then(|r| r.repair_index(&rustic_core::RepairIndexOptions::default().read_all(read_all), false))
+                    .map_err(|e| format!("{}@repair-index", errkind(&e)))?;
+                if let Ok(got) = read_everything(&h2, &snaps) {
+                    if got != original {
+                        return Err(format!("oracle-fail:front-extended-pack-changed-content-after-repair-index:{name}"));
+                    }
+                }
+                if let Ok(repo) = h2.open_nocache().and_then(|r| r.to_indexed()) {
+                    if file_with_other_content(&repo, &snaps, &original).is_some() {
+                        return Err(format!("oracle-fail:front-extended-pack-changed-content-after-repair-index:{name}"));
+                    }
+                }
+                if listed(&h2, pid)? {
+                    return Err(format!("oracle-fail:front-extended-pack-reindexed:{name}"));
+                }
+                Ok(())
+            })();
+            h.be.put_raw(FileType::Pack, *pid, bytes.clone());
+            if let Err(e) = res {
+                failures.push(e);
+            }
+        }
+    }
+    // all prefixes are tried; reported is the gravest outcome (other content returned without error), else the first one
+    if let Some(e) = failures.iter().find(|e| e.contains("changed-content")).or(failures.first()) {
+        return e.clone();
+    }
+    // the untampered repository is still what it was
+    match read_everything(&h, &snaps) {
+        Ok(got) if got == original => "ok".into(),
+        _ => "oracle-fail:restored-store-differs".into(),
+    }
 }
 
 fn orig_len_diff(a: &[u8], b: &[u8]) -> Option<usize> {
@@ -1309,6 +1704,7 @@ pub fn exec(t: &[&str]) -> String {
         ["sites"] => exec_sites(),
         ["hist", seed] => seed.parse::<u64>().map_or("bad-op".into(), exec_hist),
         ["tamper", seed] => seed.parse::<u64>().map_or("bad-op".into(), exec_tamper),
+        ["tamper", "front", seed] => seed.parse::<u64>().map_or("bad-op".into(), exec_tamper_front),
         ["swap", "snapshot", seed] => seed.parse::<u64>().map_or("bad-op".into(), exec_swap),
         ["swap", "index", seed] => seed.parse::<u64>().map_or("bad-op".into(), |s| exec_swap_any(FileType::Index, s)),
         ["swap", "pack", seed] => seed.parse::<u64>().map_or("bad-op".into(), |s| exec_swap_any(FileType::Pack, s)),
